@@ -201,3 +201,122 @@ pub fn run_l2(rep: &Reporter, args: &Args) {
     stop.store(true, std::sync::atomic::Ordering::Relaxed);
     if let Some(h) = sn { let _ = h.join(); }
 }
+
+// ------------------------------------------------------------------ errors quoting a pending request (private netns)
+
+/// Parent side: re-executes this binary inside a private network namespace in which the kernel does not answer echo
+/// requests (icmp_echo_ignore_all = 1), so that requests stay pending and the harness decides what comes back.
+pub fn run_errors(rep: &Reporter, args: &Args) {
+    let exe = match std::env::current_exe() { Ok(e) => e, Err(_) => { rep.inconclusive("l2 errors: cannot find own executable"); return; } };
+    let script = format!("ip link set lo up && echo 1 > /proc/sys/net/ipv4/icmp_echo_ignore_all && exec {} C11 --tier {} --l2-errors-child", exe.display(), if args.thorough() { "thorough" } else { "quick" });
+    let out = std::process::Command::new("unshare").args(["-n", "sh", "-c", &script]).env("VERIF_ROOT", &args.root).env("VERIF_SEED", args.seed.to_string()).output();
+    let Ok(out) = out else { rep.inconclusive("l2 errors: unshare not available"); return; };
+    let text = String::from_utf8_lossy(&out.stdout).to_string();
+    let mut seen_any = false;
+    for line in text.lines() {
+        if let Some(rest) = line.strip_prefix("CHILD-OK ") { seen_any = true; rep.evals(1); rep.tally(&format!("l2 errors: {}", rest), 1); rep.distinct(common::fnv(line.as_bytes())); }
+        else if let Some(rest) = line.strip_prefix("CHILD-BAD ") {
+            seen_any = true; rep.evals(1);
+            let (sig, w) = rest.split_once(" || ").unwrap_or((rest, "{}"));
+            rep.violation(sig, serde_json::from_str(w).unwrap_or(json!({"raw": w})));
+        } else if let Some(rest) = line.strip_prefix("CHILD-INCONCLUSIVE ") { seen_any = true; rep.inconclusive(&format!("l2 errors: {}", rest)); }
+    }
+    if !seen_any { rep.inconclusive(&format!("l2 errors: the namespace child produced no verdict (exit {:?})", out.status.code())); }
+}
+
+/// Child side (inside the namespace). Prints CHILD-OK / CHILD-BAD / CHILD-INCONCLUSIVE lines.
+pub fn errors_child(args: &Args) -> i32 {
+    let dir = env::work_dir(&args.root, "c11ns");
+    let rt = env::rt_multi(4);
+    let sniffed: Arc<Mutex<Vec<Sniffed>>> = Default::default();
+    let stop = Arc::new(std::sync::atomic::AtomicBool::new(false));
+    let sn = sniffer(stop.clone(), sniffed.clone());
+    if sn.is_none() { println!("CHILD-INCONCLUSIVE raw ICMP sockets are not permitted"); return 0; }
+    rt.block_on(async {
+        let hosts = Hosts { main: vec![("main.test".into(), vec![])], ..Default::default() };
+        let ep = start_endpoint(&dir, "127.0.0.1", &hosts, None, vec![], (true, true, false), |b| {
+            b.icmp(trusttunnel::settings::IcmpSettings::builder().interface_name("lo").request_timeout(Duration::from_millis(2500)).build().unwrap())
+        }).await;
+        tokio::time::sleep(Duration::from_millis(100)).await;
+        let o = tls_connect(ep.addr, Some("main.test"), &[b"h2"], Duration::from_secs(3)).await;
+        let Some(stream) = o.stream else { println!("CHILD-INCONCLUSIVE tls session could not be opened"); return; };
+        let Ok((mut send, conn)) = h2::client::handshake(stream).await else { println!("CHILD-INCONCLUSIVE h2 handshake failed"); return; };
+        let cj = tokio::spawn(async move { let _ = conn.await; });
+        let _ = futures::future::poll_fn(|cx| send.poll_ready(cx)).await;
+        let Ok((fut, mut tx)) = send.send_request(http::Request::builder().method("CONNECT").uri("_icmp").body(()).unwrap(), false) else { println!("CHILD-INCONCLUSIVE request failed"); return; };
+        let Ok(Ok(resp)) = tokio::time::timeout(Duration::from_secs(3), fut).await else { println!("CHILD-INCONCLUSIVE _icmp not answered"); return; };
+        if resp.status() != 200 { println!("CHILD-INCONCLUSIVE _icmp answered {}", resp.status()); return; }
+        let mut body = resp.into_body();
+        let forger = match Socket::new(Domain::IPV4, Type::from(libc::SOCK_RAW), Some(Protocol::ICMPV4)) { Ok(f) => f, Err(_) => { println!("CHILD-INCONCLUSIVE no raw socket"); return; } };
+        // (what comes back, ICMP type, code, how much of the request is quoted: None = whole)
+        let kinds: Vec<(&str, u8, u8, Option<usize>)> = vec![
+            ("echo reply", 0, 0, None), ("time exceeded quoting 8 bytes of the request", 11, 0, Some(8)), ("time exceeded quoting the whole request", 11, 0, None),
+            ("host unreachable quoting 8 bytes of the request", 3, 1, Some(8)), ("port unreachable quoting 12 bytes of the request", 3, 3, Some(12)), ("nothing (request times out)", 255, 0, None),
+        ];
+        let id: u16 = 0x5a00;
+        let mut seq: u16 = 100;
+        let mut expected: Vec<(u16, &str, u8, u8, bool)> = vec![];
+        for size in [0u16, 8, 56, 600] {
+            for (what, t, code, quote) in &kinds {
+                seq += 1;
+                let rec = rec73(id, "127.0.0.1".parse().unwrap(), seq, 64, size);
+                tx.reserve_capacity(rec.len());
+                let _ = futures::future::poll_fn(|cx| tx.poll_capacity(cx)).await;
+                let _ = tx.send_data(Bytes::from(rec), false);
+                // wait until the request is on the wire (sniffed), then answer it as chosen
+                let mut req_icmp = None;
+                for _ in 0..200 {
+                    if let Some(s) = sniffed.lock().unwrap().iter().find(|s| s.icmp[0] == 8 && s.icmp[4..6] == id.to_be_bytes() && s.icmp[6..8] == seq.to_be_bytes()) { req_icmp = Some(s.icmp.clone()); break; }
+                    tokio::time::sleep(Duration::from_millis(5)).await;
+                }
+                let Some(req_icmp) = req_icmp else { println!("CHILD-INCONCLUSIVE echo request seq {} never seen on the wire", seq); continue };
+                let to: SocketAddr = "127.0.0.1:0".parse().unwrap();
+                if *t == 0 {
+                    let mut p = req_icmp.clone(); p[0] = 0; p[2] = 0; p[3] = 0; let c = !ones_sum(&p); p[2..4].copy_from_slice(&c.to_be_bytes());
+                    let _ = forger.send_to(&p, &to.into());
+                } else if *t != 255 {
+                    let mut ip = vec![0x45u8, 0, 0, 0, 0, 0, 0, 0, 63, 1, 0, 0, 127, 0, 0, 1, 127, 0, 0, 1];
+                    let total = (20 + req_icmp.len()) as u16; ip[2..4].copy_from_slice(&total.to_be_bytes());
+                    let q = match quote { Some(n) => &req_icmp[..(*n).min(req_icmp.len())], None => &req_icmp[..] };
+                    let mut p = vec![*t, *code, 0, 0, 0, 0, 0, 0];
+                    p.extend_from_slice(&ip); p.extend_from_slice(q);
+                    let c = !ones_sum(&p); p[2..4].copy_from_slice(&c.to_be_bytes());
+                    let _ = forger.send_to(&p, &to.into());
+                }
+                expected.push((seq, what, *t, *code, *t != 255));
+                tokio::time::sleep(Duration::from_millis(20)).await;
+            }
+        }
+        // collect the 7.4 records
+        let mut got = vec![];
+        loop {
+            match tokio::time::timeout(Duration::from_millis(1500), body.data()).await {
+                Ok(Some(Ok(b))) => { let _ = body.flow_control().release_capacity(b.len()); got.extend_from_slice(&b); }
+                _ => break,
+            }
+        }
+        let mut reports: Vec<(u16, u16, u8, u8)> = vec![];
+        for rec in got.chunks(22) { if rec.len() == 22 { reports.push((u16::from_be_bytes([rec[0], rec[1]]), u16::from_be_bytes([rec[20], rec[21]]), rec[18], rec[19])); } }
+        for (seq, what, t, code, must) in &expected {
+            let mine: Vec<&(u16, u16, u8, u8)> = reports.iter().filter(|r| r.0 == id && r.1 == *seq).collect();
+            let size = [0u16, 8, 56, 600][((*seq as usize - 101) / kinds.len()).min(3)];
+            let w = json!({"kind":"icmp-l2-error-report","seq":seq,"request_data_size":size,"came_back":what,"reports":mine.iter().map(|r| format!("type {} code {}", r.2, r.3)).collect::<Vec<_>>()});
+            if *must {
+                if mine.is_empty() { println!("CHILD-BAD an ICMP message answering a pending request was not reported to the requesting client ({}) || {}", if *t == 0 { "echo reply" } else if w["came_back"].as_str().unwrap_or("").contains("8 bytes") || w["came_back"].as_str().unwrap_or("").contains("12 bytes") { "error with a truncated quote" } else { "error with a full quote" }, w); }
+                else if mine.len() > 1 { println!("CHILD-BAD one ICMP message reported more than once || {}", w); }
+                else if mine[0].2 != *t || mine[0].3 != *code { println!("CHILD-BAD ICMP message reported with a wrong type or code || {}", w); }
+                else { println!("CHILD-OK {} (request data size {}) reported once with its type and code", what, size); }
+            } else if !mine.is_empty() { println!("CHILD-BAD a request that got no answer was reported to the client || {}", w); }
+            else { println!("CHILD-OK unanswered request not reported"); }
+        }
+        // nothing else may be reported
+        for r in &reports { if !expected.iter().any(|e| e.0 == r.1) || r.0 != id { println!("CHILD-BAD client was told about a reply to a request it never sent || {}", json!({"id":r.0,"seq":r.1})); } }
+        // after the timeout the tables must be empty
+        tokio::time::sleep(Duration::from_millis(2800)).await;
+        match icmp_table_sizes(&ep.ctx) { Some((0, 0)) => println!("CHILD-OK waiter table empty after the request timeout"), Some((w, d)) => println!("CHILD-BAD pending echo requests not forgotten after the request timeout (waiter table not empty) || {}", json!({"waiters":w,"deadlines":d})), None => {} }
+        drop(tx); cj.abort(); ep.task.abort();
+    });
+    stop.store(true, std::sync::atomic::Ordering::Relaxed);
+    if let Some(h) = sn { let _ = h.join(); }
+    0
+}
